@@ -1212,6 +1212,9 @@ def gen_tree_scenario(ctx, rng, exhaustive=False, nsends=4):
         # learning needs somebody who knows: every LAN has a router port, routers know their numbers
         pass
     combos = [(si, d) for si in range(len(spec["stations"])) for d in dest_choices_mode(spec, si, learn)]
+    if exhaustive and len(combos) > 250:
+        rng.shuffle(combos)
+        combos = combos[:250]
     if not exhaustive:
         rng.shuffle(combos)
         # one of each kind first
@@ -1418,8 +1421,10 @@ def run(ctx):
         lock = [{"shard": i, "n": 60} for i in range(8)]
         e2e = [{"shard": i, "trees": 4, "cycles": 2, "nsends": 4} for i in range(16)]
     else:
-        lock = [{"shard": i, "n": 1500} for i in range(16)]
-        e2e = [{"shard": i, "trees": 40, "cycles": 12, "exhaustive": True} for i in range(64)]
+        lock = [{"shard": i, "n": 700} for i in range(16)]
+        # every (source, kind, destination) on 2 trees per shard (capped), a large sample on 24 more
+        e2e = [{"shard": i, "trees": 2, "cycles": 0, "exhaustive": True} for i in range(32)]
+        e2e += [{"shard": 100 + i, "trees": 24, "cycles": 10, "nsends": 12} for i in range(32)]
     core.run_shards(ctx, "harness.c06", "shard_lockstep", lock)
     core.run_shards(ctx, "harness.c06", "shard_e2e", e2e)
 
